@@ -1,9 +1,12 @@
 (* C02 — Frame decoding matches the vanilla acceptance rules on hostile byte streams.
    Only statements and `exact`; proofs are in Proofs/C02.v.  All theorems quantify over every byte string,
    both directions and every threshold; zlib (inflate / lazy_close_ok) is universally quantified without
-   any premise.  impl_ = today's decoder.go, fixed_ = decoder.go with fixes/C02-1.diff and C02-2.diff,
-   velocity_ = the reference written from the property text (Varint21 length prefix, claimed-size rules,
-   exact inflation). *)
+   any premise.
+     impl_     = today's decoder.go (with commits 7de81ff and 9119697),
+     velocity_ = the reference written from the property text (Varint21 length prefix, claimed-size rules,
+                 exact inflation),
+     prefix_   = decoder.go BEFORE those two commits, kept only to state what was wrong (findings C02-1 and
+                 C02-2, both "fixed" in known_findings.jsonl). *)
 From Coq Require Import List NArith ZArith Bool.
 From Verif Require Import Base.Hex Base.VarInt Model.Codec Proofs.C01 Proofs.C02.
 Import ListNotations.
@@ -21,7 +24,7 @@ Theorem C02_total : forall (inflate : bytes -> zres) (lazy_close_ok : bytes -> N
   (read_varint s = VShort -> (length s <= 5)%nat).
 Proof.
   intros inflate lz c s. split.
-  - exact (needmore_iff inflate lz false false c s).
+  - exact (needmore_iff inflate lz true true c s).
   - exact (read_varint_short_len s).
 Qed.
 Print Assumptions C02_total.
@@ -32,7 +35,7 @@ Theorem C02_decision_stable : forall (inflate : bytes -> zres) (lazy_close_ok : 
   snd (impl_decode_frame inflate lazy_close_ok c s) <> FNeedMore ->
   impl_decode_frame inflate lazy_close_ok c (s ++ more) =
   (fst (impl_decode_frame inflate lazy_close_ok c s), extend (snd (impl_decode_frame inflate lazy_close_ok c s)) more).
-Proof. exact (fun inflate lz c s more => decided_stable inflate lz false false c s more). Qed.
+Proof. exact (fun inflate lz c s more => decided_stable inflate lz true true c s more). Qed.
 Print Assumptions C02_decision_stable.
 
 (* "never allocates a frame larger than 2^21-1 bytes": the sizes passed to make([]byte, n) while decoding one
@@ -50,15 +53,31 @@ Theorem C02_alloc_bound : forall (inflate : bytes -> zres) (lazy_close_ok : byte
          (fst (read_packet (impl_decode_frame inflate lazy_close_ok) c s)).
 Proof.
   intros inflate lz c s. split.
-  - exact (frame_alloc_bound inflate lz read_varint false false c s).
-  - exact (packet_alloc_bound inflate lz read_varint false false c 12 0 s).
+  - exact (frame_alloc_bound inflate lz read_varint true true c s).
+  - exact (packet_alloc_bound inflate lz read_varint true true c 12 0 s).
 Qed.
 Print Assumptions C02_alloc_bound.
 
+(* How the agreement is obtained: today's decoder IS the reference's code behind a different length-prefix
+   reader (both are decode_frame_with _ true true), and the two prefix readers decide alike on a minimal prefix. *)
+Theorem C02_impl_is_spec : forall (inflate : bytes -> zres) (lazy_close_ok : bytes -> N -> bool),
+  impl_decode_frame inflate lazy_close_ok = decode_frame_with inflate lazy_close_ok read_varint true true /\
+  velocity_decode_frame inflate lazy_close_ok = decode_frame_with inflate lazy_close_ok read_varint21 true true /\
+  forall f1 f2 c s, minimal_prefix s = true ->
+    same_decision (snd (decode_frame_with inflate lazy_close_ok read_varint f1 f2 c s))
+                  (snd (decode_frame_with inflate lazy_close_ok read_varint21 f1 f2 c s)) = true.
+Proof.
+  intros inflate lz. split; [reflexivity|split; [reflexivity|]].
+  exact (prefix_readers_agree inflate lz).
+Qed.
+Print Assumptions C02_impl_is_spec.
+
 (* "on streams with minimally encoded length prefixes it yields exactly the payloads the Velocity frame decoder
-   yields and rejects where it rejects": one frame, off the inputs of the two recorded findings. *)
+   yields and rejects where it rejects" — today's code, one frame, no further premise: negative / too small /
+   too large claimed sizes, bodies not inflating to exactly the claimed size, uncompressed bodies above the
+   threshold are rejected by both; a body of exactly the threshold is accepted by both. *)
 Theorem C02_agrees_with_velocity : forall (inflate : bytes -> zres) (lazy_close_ok : bytes -> N -> bool) (c : cfg) (s : bytes),
-  minimal_prefix s = true -> trigger1 c s = false -> trigger2 inflate lazy_close_ok c s = false ->
+  minimal_prefix s = true ->
   same_decision (snd (impl_decode_frame inflate lazy_close_ok c s))
                 (snd (velocity_decode_frame inflate lazy_close_ok c s)) = true.
 Proof. exact impl_agrees_velocity. Qed.
@@ -67,60 +86,62 @@ Print Assumptions C02_agrees_with_velocity.
 (* the same for whole streams: successive Decode calls (empty frames skipped, the 12th in a row refused, packet
    id required) return the same payloads in the same order and stop the same way. *)
 Theorem C02_stream_agrees_with_velocity : forall (inflate : bytes -> zres) (lazy_close_ok : bytes -> N -> bool) (c : cfg) (s : bytes),
-  minimal_stream inflate lazy_close_ok c s = true -> untriggered_stream inflate lazy_close_ok c s = true ->
+  minimal_stream inflate lazy_close_ok c s = true ->
   stream_same (decode_stream_flat (impl_decode_frame inflate lazy_close_ok) c s)
               (decode_stream_flat (velocity_decode_frame inflate lazy_close_ok) c s) = true.
 Proof. exact impl_stream_agrees_velocity. Qed.
 Print Assumptions C02_stream_agrees_with_velocity.
 
-(* Without the trigger premises the statement is FALSE for today's code — the two recorded findings:
-   (1) a negative claimed size is taken for an uncompressed frame, (2) a body that inflates to more than the
-   claimed size is accepted, cut to the claimed size.  Both inputs have minimal prefixes; the reference and the
-   repaired decoder reject them. *)
-Theorem C02_refuted_negative_claimed :
+(* ---------- facts about the PRE-FIX decoder (before commits 7de81ff and 9119697) ---------- *)
+
+(* The agreement was FALSE for the pre-fix code on two input classes:
+   (1) a negative claimed size was taken for an uncompressed frame,
+   (2) a body inflating to more than the claimed size was accepted, cut to the claimed size.
+   Both inputs have minimal prefixes; the reference and today's decoder reject them. *)
+Theorem C02_prefix_refuted_negative_claimed :
   exists (c : cfg) (s : bytes), minimal_prefix s = true /\ trigger1 c s = true /\
-    (exists p, snd (impl_decode_frame ex_inflate ex_lazy c s) = FOk p []) /\
+    (exists p, snd (prefix_decode_frame ex_inflate ex_lazy c s) = FOk p []) /\
     snd (velocity_decode_frame ex_inflate ex_lazy c s) = FErr ENegClaimed /\
-    snd (fixed_decode_frame ex_inflate ex_lazy c s) = FErr ENegClaimed.
+    snd (impl_decode_frame ex_inflate ex_lazy c s) = FErr ENegClaimed.
 Proof.
   exists (mkcfg 256 ServerBound), ex_negative.
   destruct refuted_negative_claimed as (H1 & H2 & H3 & H4 & H5). repeat split; try assumption. eexists; exact H3.
 Qed.
-Print Assumptions C02_refuted_negative_claimed.
+Print Assumptions C02_prefix_refuted_negative_claimed.
 
-Theorem C02_refuted_overlong_body :
+Theorem C02_prefix_refuted_overlong_body :
   exists (c : cfg) (s : bytes), minimal_prefix s = true /\ trigger2 ex_inflate ex_lazy c s = true /\
-    (exists p, snd (impl_decode_frame ex_inflate ex_lazy c s) = FOk p []) /\
+    (exists p, snd (prefix_decode_frame ex_inflate ex_lazy c s) = FOk p []) /\
     snd (velocity_decode_frame ex_inflate ex_lazy c s) = FErr EInflate /\
-    snd (fixed_decode_frame ex_inflate ex_lazy c s) = FErr EInflate.
+    snd (impl_decode_frame ex_inflate ex_lazy c s) = FErr EInflate.
 Proof.
   exists (mkcfg 2 ServerBound), ex_overlong.
   destruct refuted_overlong_body as (H1 & H2 & H3 & H4 & H5). repeat split; try assumption. eexists; exact H3.
 Qed.
-Print Assumptions C02_refuted_overlong_body.
+Print Assumptions C02_prefix_refuted_overlong_body.
 
-(* The repaired decoder satisfies the property with no trigger premise at all. *)
-Theorem C02_fixed_agrees_with_velocity : forall (inflate : bytes -> zres) (lazy_close_ok : bytes -> N -> bool) (c : cfg) (s : bytes),
-  (minimal_prefix s = true ->
-     same_decision (snd (fixed_decode_frame inflate lazy_close_ok c s))
+(* Off the two triggers the pre-fix decoder took the same decision as today's (so the repairs changed nothing
+   else), and hence agreed with the reference there, per frame and per stream. *)
+Theorem C02_prefix_eq_impl_off_trigger : forall (inflate : bytes -> zres) (lazy_close_ok : bytes -> N -> bool) (c : cfg) (s : bytes),
+  trigger1 c s = false -> trigger2 inflate lazy_close_ok c s = false ->
+  same_decision (snd (prefix_decode_frame inflate lazy_close_ok c s))
+                (snd (impl_decode_frame inflate lazy_close_ok c s)) = true.
+Proof. exact prefix_impl_off_trigger. Qed.
+Print Assumptions C02_prefix_eq_impl_off_trigger.
+
+Theorem C02_prefix_agrees_off_trigger : forall (inflate : bytes -> zres) (lazy_close_ok : bytes -> N -> bool) (c : cfg) (s : bytes),
+  (minimal_prefix s = true -> trigger1 c s = false -> trigger2 inflate lazy_close_ok c s = false ->
+     same_decision (snd (prefix_decode_frame inflate lazy_close_ok c s))
                    (snd (velocity_decode_frame inflate lazy_close_ok c s)) = true) /\
-  (minimal_stream inflate lazy_close_ok c s = true ->
-     stream_same (decode_stream_flat (fixed_decode_frame inflate lazy_close_ok) c s)
+  (minimal_stream inflate lazy_close_ok c s = true -> untriggered_stream inflate lazy_close_ok c s = true ->
+     stream_same (decode_stream_flat (prefix_decode_frame inflate lazy_close_ok) c s)
                  (decode_stream_flat (velocity_decode_frame inflate lazy_close_ok) c s) = true).
 Proof.
   intros inflate lz c s. split.
-  - exact (fixed_agrees_velocity inflate lz c s).
-  - exact (fixed_stream_agrees_velocity inflate lz c s).
+  - exact (prefix_agrees_velocity_off_trigger inflate lz c s).
+  - exact (prefix_stream_agrees_velocity_off_trigger inflate lz c s).
 Qed.
-Print Assumptions C02_fixed_agrees_with_velocity.
-
-(* and off the triggers today's decoder and the repaired one take the same decision *)
-Theorem C02_impl_eq_fixed_off_trigger : forall (inflate : bytes -> zres) (lazy_close_ok : bytes -> N -> bool) (c : cfg) (s : bytes),
-  trigger1 c s = false -> trigger2 inflate lazy_close_ok c s = false ->
-  same_decision (snd (impl_decode_frame inflate lazy_close_ok c s))
-                (snd (fixed_decode_frame inflate lazy_close_ok c s)) = true.
-Proof. exact impl_fixed_off_trigger. Qed.
-Print Assumptions C02_impl_eq_fixed_off_trigger.
+Print Assumptions C02_prefix_agrees_off_trigger.
 
 (* Non-vacuity of the agreement premises, and the threshold boundary of the property text
    ("uncompressed frames larger than the threshold are rejected, one of exactly the threshold size is tolerated"). *)
